@@ -304,7 +304,7 @@ class AbstractOnlineSpecification(AbstractSpecification):
     def pastify(self):
         if isinstance(self.online_interpreter, DiscreteTimeInterpreter) and hasattr(self.ast, 'U'):
             # one sample (the look-ahead of next) lasts one sampling period; express it in the default unit
-            period = Fraction(self.online_interpreter.get_sampling_period()) / Fraction(self.ast.U[self.ast.unit])
+            period = self.online_interpreter.get_exact_sampling_period() / Fraction(self.ast.U[self.ast.unit])
             if period != 1:
                 self.ast = self.pastifier.pastify(self.ast, period)
                 return
